@@ -15,17 +15,19 @@ ID = "C40"
 QUICK_N = 2000
 THOROUGH_N = 30000
 SHARD = 300
-RULE = ("flow type uniform over 9 kinds (http with/without response, with error, with websocket, tcp, udp, dns "
-        "with/without response, http built by from_state); history of 1..12 operations over a store of <= 4 flows: "
-        "70% structured (edit* backup edit* [backup] edit* revert, with copies interleaved and edits drawn from small "
-        "value pools that contain the original values, so that edit-back-to-equal happens), 30% adversarial "
-        "(uniform operations: revert without backup, double backup/revert, copy of a flow with a pending backup, "
-        "revert of such a copy, in-place mutation of nested metadata / messages / of the dict returned by get_state, "
-        "set_state(get_state()), live toggles). Edits: request/response headers, content, path, method, host, status, "
-        "trailers, response removed/replaced, marked, comment, metadata (set/delete/nested in-place), error "
-        "(set/clear/in-place), intercept/resume, is_replay, client sni/alpn, websocket messages (append/edit/drop/pop, "
-        "close code), tcp/udp messages (append/edit/pop/flip), dns id/question/answers/response. Non-trivial = at "
-        "least one backup or copy took effect; distinct by canonical JSON.")
+RULE = ("flow type uniform over 11 kinds (http with/without response, with error, with websocket, with EMPTY-but-present "
+        "trailers and header-less response, with non-empty trailers, tcp, udp, dns with/without response, http built by "
+        "from_state); history of 1..16 operations over a store of <= 4 flows: 45% structured (edit* backup edit* [backup] "
+        "edit* revert, copies interleaved, edits from small value pools that contain the original values so that "
+        "edit-back-to-equal happens), 30% alias probes (shape the nested mutables: trailers None/empty/non-empty, headers "
+        "emptied, metadata lists/dicts, error; then backup and/or copy; then IN-PLACE mutations of nested mutables on the "
+        "original and on the copies: Headers objects of request/response headers and trailers set/add/del/clear, nested "
+        "metadata lists and dicts, error.msg, connection lists, websocket/tcp/udp message objects and lists, dns "
+        "questions/answers lists and records; then reverts), 25% adversarial (uniform operations: revert without backup, "
+        "double backup/revert, copy of a flow with a pending backup and revert of such a copy, mutation of the dict "
+        "returned by get_state, set_state(get_state()), live toggles). Other edits: content, path, method, host, status, "
+        "reason, response removed/replaced, marked, comment, intercept/resume, is_replay, client sni/alpn, websocket "
+        "close code. Non-trivial = at least one backup or copy took effect; distinct by canonical JSON.")
 TRUSTED = ["Coq 8.16.1 kernel (coqc), vm_compute for case evaluation",
            "harness/props/C40.py: generator, token interning of state dicts with Python ==, comparison glue Corr/C40.v",
            "Section contract of Model/FlowBackup.v: the content lens satisfies get_c (set_c c o) = c (the state written by "
@@ -38,7 +40,7 @@ ASSUMPTIONS = ["edits are those listed in RULE: attributes and nested objects of
                "the assert on version/type in Flow.set_state is not modelled (both are class constants)"]
 COQ_PRELUDE = "From MV Require Import Model.FlowBackup.\n"
 
-FTYPES = ["http", "httpresp", "httperr", "ws", "tcp", "udp", "dns", "dnsresp", "loaded"]
+FTYPES = ["http", "httpresp", "httperr", "ws", "tcp", "udp", "dns", "dnsresp", "loaded", "httpte", "httptn"]
 MAXFLOWS = 4
 
 # ---------------------------------------------------------------- edits
@@ -49,16 +51,29 @@ HN = ["header", "header-response", "x-a", "content-length", "set-cookie"]
 HV = ["qvalue", "svalue", "7", "a=b", ""]
 
 COMMON = ["marked", "comment", "meta_set", "meta_del", "meta_inplace", "error", "error_inplace", "intercept",
-          "resume", "is_replay", "sni", "alpn", "got_state_mutate", "noop"]
+          "resume", "is_replay", "sni", "alpn", "got_state_mutate", "noop", "conn_list_inplace"]
 HTTP_E = ["req_header", "req_header_del", "req_content", "req_path", "req_method", "req_host", "req_trailers",
-          "resp_status", "resp_header", "resp_content", "resp_reason", "resp_none", "resp_new", "req_headers_inplace"]
+          "resp_status", "resp_header", "resp_content", "resp_reason", "resp_none", "resp_new", "req_headers_inplace",
+          "resp_trailers", "trailers_inplace", "trailers_inplace", "headers_inplace", "headers_empty"]
 WS_E = ["ws_append", "ws_edit", "ws_pop", "ws_drop", "ws_close", "ws_none"]
 MSG_E = ["msg_append", "msg_edit", "msg_pop", "msg_flip", "msg_clear"]
-DNS_E = ["dns_id", "dns_q", "dns_resp_none", "dns_resp_new", "dns_ans_append", "dns_ans_pop", "dns_flag"]
+DNS_E = ["dns_id", "dns_q", "dns_resp_none", "dns_resp_new", "dns_ans_append", "dns_ans_pop", "dns_flag", "dns_ans_edit",
+         "dns_q_append"]
+# edits that mutate a nested mutable object IN PLACE (no attribute of the flow is rebound), per family
+INPLACE_COMMON = ["meta_inplace", "error_inplace", "conn_list_inplace"]
+INPLACE_HTTP = ["trailers_inplace", "trailers_inplace", "headers_inplace", "req_headers_inplace"]
+INPLACE_WS = ["ws_edit", "ws_append", "ws_drop", "ws_pop"]
+INPLACE_MSG = ["msg_edit", "msg_append", "msg_flip", "msg_pop"]
+INPLACE_DNS = ["dns_ans_edit", "dns_ans_append", "dns_q", "dns_q_append", "dns_ans_pop"]
+# edits that give the nested mutables a shape first (None / empty / non-empty)
+SHAPE_COMMON = ["meta_set", "meta_set", "error"]
+SHAPE_HTTP = ["req_trailers", "resp_trailers", "headers_empty", "resp_new"]
+SHAPE_DNS = ["dns_resp_new"]
+_ALL_INPLACE = set(INPLACE_COMMON + INPLACE_HTTP + INPLACE_WS + INPLACE_MSG + INPLACE_DNS)
 
 
 def _edit_kinds(ft):
-    if ft in ("http", "httpresp", "httperr", "loaded"):
+    if ft in ("http", "httpresp", "httperr", "loaded", "httpte", "httptn"):
         return COMMON + HTTP_E * 2
     if ft == "ws":
         return COMMON + HTTP_E + WS_E * 3
@@ -67,8 +82,34 @@ def _edit_kinds(ft):
     return COMMON + DNS_E * 3
 
 
-def _gen_edit(rng, ft):
-    k = rng.choice(_edit_kinds(ft))
+def _family(ft):
+    if ft in ("tcp", "udp"):
+        return "msg"
+    if ft in ("dns", "dnsresp"):
+        return "dns"
+    return "ws" if ft == "ws" else "http"
+
+
+def _inplace_kinds(ft):
+    fam = _family(ft)
+    if fam == "msg":
+        return INPLACE_COMMON + INPLACE_MSG * 3
+    if fam == "dns":
+        return INPLACE_COMMON + INPLACE_DNS * 3
+    return INPLACE_COMMON + INPLACE_HTTP * 3 + (INPLACE_WS * 2 if fam == "ws" else [])
+
+
+def _shape_kinds(ft):
+    fam = _family(ft)
+    if fam == "msg":
+        return SHAPE_COMMON + ["msg_append", "msg_clear"]
+    if fam == "dns":
+        return SHAPE_COMMON + SHAPE_DNS
+    return SHAPE_COMMON + SHAPE_HTTP * 3
+
+
+def _gen_edit(rng, ft, kinds=None):
+    k = rng.choice(kinds or _edit_kinds(ft))
     if k in ("marked", "comment", "error_inplace", "req_host", "dns_q"):
         return [k, rng.choice(STRS)]
     if k == "meta_set":
@@ -93,8 +134,17 @@ def _gen_edit(rng, ft):
         return [k, rng.choice(["2f70617468", "2f", "2f613f623d63"])]
     if k == "req_method":
         return [k, rng.choice(["474554", "504f5354"])]
-    if k == "req_trailers":
-        return [k, rng.choice([None, "t"])]
+    if k in ("req_trailers", "resp_trailers"):
+        return [k, rng.choice([None, "empty", "empty", "t"])]
+    if k in ("trailers_inplace", "headers_inplace"):
+        return [k, rng.choice(["req", "resp"]), rng.choice(["set", "add", "del", "clear", "set", "add"]),
+                rng.choice(["t", "x-checksum", "header"]), rng.choice(HV)]
+    if k == "headers_empty":
+        return [k, rng.choice(["req", "resp"])]
+    if k == "conn_list_inplace":
+        return [k, rng.choice(["alpn_offers", "cipher_list"])]
+    if k == "dns_ans_edit":
+        return [k, rng.choice([32, 5, 0])]
     if k == "resp_status":
         return [k, rng.choice([200, 404, 503])]
     if k == "resp_reason":
@@ -126,7 +176,34 @@ def _gen_ops(rng, ft):
         if nflows < MAXFLOWS:
             ops.append(["copy", i]); nflows += 1; pend.append(pend[i])
 
-    if rng.chance(0.7):
+    def iedit(i):
+        ops.append(["edit", i, _gen_edit(rng, ft, _inplace_kinds(ft))])
+
+    r0 = rng.random()
+    if r0 < 0.3:
+        # alias probe: shape the nested mutables, backup and/or copy, then mutate them IN PLACE on the
+        # original and on the copy, then revert both
+        for _ in range(rng.randint(0, 2)):
+            ops.append(["edit", 0, _gen_edit(rng, ft, _shape_kinds(ft))])
+        bk, before = rng.chance(0.85), rng.chance(0.5)
+        if bk and before:
+            ops.append(["backup", 0])
+        if rng.chance(0.8) or not bk:
+            copyop(0)
+        if bk and not before:
+            ops.append(["backup", rng.below(nflows)])
+        for _ in range(rng.randint(1, 5)):
+            iedit(rng.below(nflows))
+        if rng.chance(0.3):
+            copyop(rng.below(nflows))
+            iedit(rng.below(nflows))
+        order = list(range(nflows))
+        rng.shuffle(order)
+        for j in order[:rng.randint(1, nflows)]:
+            ops.append(["revert", j])
+        if rng.chance(0.4):
+            iedit(rng.below(nflows))
+    elif r0 < 0.75:
         rounds = rng.randint(1, 2)
         for _ in range(rounds):
             i = rng.below(nflows)
@@ -169,7 +246,7 @@ def _gen_ops(rng, ft):
                 ops.append(["reload", i])
             else:
                 ops.append(["live", i, rng.chance(0.5)])
-    return ops[:14]
+    return ops[:16]
 
 
 def gen(rng, n, tier):
@@ -201,6 +278,16 @@ def _make(ft):
         return tflow.tdnsflow()
     if ft == "dnsresp":
         return tflow.tdnsflow(resp=True)
+    if ft in ("httpte", "httptn"):
+        f = tflow.tflow(resp=True)
+        if ft == "httpte":      # trailers present but empty, response without any header
+            f.request.trailers = http.Headers()
+            f.response.trailers = http.Headers()
+            f.response.headers = http.Headers()
+        else:
+            f.request.trailers = http.Headers([(b"t", b"1")])
+            f.response.trailers = http.Headers([(b"x-checksum", b"a"), (b"t", b"2")])
+        return f
     if ft == "loaded":
         f = flow.Flow.from_state(tflow.tflow(resp=True).get_state())
         f.live = True
@@ -229,6 +316,7 @@ def _apply_edit(f, e):
             f.metadata["list"].append(7)
         if isinstance(f.metadata.get("d"), dict):
             f.metadata["d"].setdefault("a", []).append(9)
+            f.metadata["d"].setdefault("b", {"c": []})["c"].append(len(f.metadata["d"]["a"]))
     elif k == "error":
         f.error = None if e[1] is None else flow.Error(e[1], 946681207.0)
     elif k == "error_inplace":
@@ -244,6 +332,8 @@ def _apply_edit(f, e):
         f.client_conn.sni = e[1]
     elif k == "alpn":
         f.client_conn.alpn = _b(e[1])
+    elif k == "conn_list_inplace":
+        getattr(f.client_conn, e[1]).append(b"zz" if e[1] == "alpn_offers" else "ZZ")
     elif k == "got_state_mutate":
         # mutating what get_state() returned must not reach the flow or its backup
         s = f.get_state()
@@ -285,8 +375,26 @@ def _apply_http(f, e):
     elif k == "req_host":
         if e[1]:
             rq.host = e[1]
-    elif k == "req_trailers":
-        rq.trailers = None if e[1] is None else http.Headers([(b"t", b"1")])
+    elif k in ("req_trailers", "resp_trailers"):
+        m = rq if k == "req_trailers" else rs
+        if m is not None:
+            m.trailers = None if e[1] is None else http.Headers() if e[1] == "empty" else http.Headers([(b"t", b"1")])
+    elif k in ("trailers_inplace", "headers_inplace"):
+        m = rq if e[1] == "req" else rs
+        h = None if m is None else (m.trailers if k == "trailers_inplace" else m.headers)
+        if h is not None:       # the Headers object itself is mutated, the attribute is not rebound
+            if e[2] == "set":
+                h[e[3]] = e[4]
+            elif e[2] == "add":
+                h.add(e[3], e[4])
+            elif e[2] == "del":
+                h.pop(e[3], None)
+            else:
+                h.clear()
+    elif k == "headers_empty":
+        m = rq if e[1] == "req" else rs
+        if m is not None:
+            m.headers = http.Headers()
     elif k == "resp_none":
         f.response = None
     elif k == "resp_new":
@@ -345,6 +453,11 @@ def _apply_dns(f, e):
         f.response = tutils.tdnsresp()
     elif k == "dns_flag":
         f.request.recursion_desired = e[1]
+    elif k == "dns_q_append":
+        f.request.questions.append(dns.Question("example.org", dns.types.AAAA, dns.classes.IN))
+    elif f.response is not None and k == "dns_ans_edit":
+        if f.response.answers:
+            f.response.answers[0].ttl = e[1]
     elif f.response is not None and k == "dns_ans_append":
         f.response.answers.append(dns.ResourceRecord("dns.google", dns.types.A, dns.classes.IN, 32, b"\x01\x02\x03\x04"))
     elif f.response is not None and k == "dns_ans_pop":
@@ -388,7 +501,11 @@ def _observe(store, ids, cs):
     out = []
     for f in store:
         st = f.get_state()
-        out.append({"live": bool(f.live), "mod": bool(f.modified()), "bk": _abs(f._backup, ids, cs),
+        tr = ""
+        for m in (getattr(f, "request", None), getattr(f, "response", None)):
+            t = getattr(m, "trailers", "-") if m is not None else "-"
+            tr += "-" if isinstance(t, str) else "N" if t is None else "F" if len(t) else "E"
+        out.append({"live": bool(f.live), "mod": bool(f.modified()), "bk": _abs(f._backup, ids, cs), "tr": tr,
                     "st": _abs(st, ids, cs), "truthy": bool(f._backup), "modt": type(f.modified()).__name__})
     return out
 
@@ -582,6 +699,17 @@ def classify(case, obs):
             tags.append("backup-repeated")
         if op[0] == "copy":
             tags.append("copy-with-backup" if prev[i]["bk"] is not None else "copy-plain")
+            if "E" in prev[i].get("tr", ""):
+                tags.append("copy-with-empty-trailers")
+        if op[0] == "backup" and prev[i]["bk"] is None and "E" in prev[i].get("tr", ""):
+            tags.append("backup-with-empty-trailers")
+        if op[0] == "edit" and op[2][0] in _ALL_INPLACE and cur[i]["st"][1] != prev[i]["st"][1]:
+            if prev[i]["bk"] is not None:
+                tags.append("inplace-edit-with-pending-backup")
+            if len(prev) > 1:
+                tags.append("inplace-edit-with-copies")
+            if op[2][0] == "trailers_inplace":
+                tags.append("inplace-trailers-" + ("after-empty" if "E" in prev[i].get("tr", "") else "nonempty"))
         if op[0] == "edit" and cur[i]["st"][1] == prev[i]["st"][1]:
             tags.append("edit-no-change")
         if op[0] == "edit" and cur[i]["st"][1] != prev[i]["st"][1]:
